@@ -871,9 +871,17 @@ func linearEq(name string, a, b *Expr, v ssa.Value) *Expr {
 	}
 	// l + k  name  r
 	if k > 0 {
-		l = fmt.Sprintf("%s + %d", l, k)
+		if l == "0" {
+			l = fmt.Sprintf("%d", k)
+		} else {
+			l = fmt.Sprintf("%s + %d", l, k)
+		}
 	} else if k < 0 {
-		r = fmt.Sprintf("%s + %d", r, -k)
+		if r == "0" {
+			r = fmt.Sprintf("%d", -k)
+		} else {
+			r = fmt.Sprintf("%s + %d", r, -k)
+		}
 	}
 	return mk("bin", name, v, mk("lin", l, nil), mk("lin", r, nil))
 }
@@ -923,7 +931,7 @@ func canonCall(c *Expr) *Expr {
 		return orderPair("==b", c.Args[0], c.Args[1], c.Val)
 	case two && (strings.Contains(n, "Height)") || strings.Contains(n, "exported.Height.")) && isOrd(last):
 		return ordRewrite(last, "H", c)
-	case two && (strings.HasPrefix(n, "github.com/cosmos/cosmos-sdk/types.(Int)") || strings.HasPrefix(n, "github.com/cosmos/cosmos-sdk/types.(Dec)") || strings.HasPrefix(n, "github.com/cosmos/cosmos-sdk/types.(Uint)")) && isOrd(last):
+	case two && (strings.HasPrefix(n, "cosmos-sdk/types.(Int)") || strings.HasPrefix(n, "cosmos-sdk/types.(Dec)") || strings.HasPrefix(n, "cosmos-sdk/types.(Uint)")) && isOrd(last):
 		return ordRewrite(last, "i", c)
 	case two && strings.HasPrefix(n, "time.(Time)") && (last == "After" || last == "Before" || last == "Equal"):
 		switch last {
